@@ -123,6 +123,9 @@ type canonOpts struct {
 // folded to their value.
 func (c *Ctx) canon(info *types.Info, e ast.Expr, o *canonOpts) string {
 	c.indexAccessors()
+	if o == nil && !c.noAutoExpand {
+		o = c.autoOpts(info, e)
+	}
 	e = unparen(e)
 	if tv, ok := info.Types[e]; ok && tv.Value != nil {
 		// named constants keep their name when they are sentinels of the repo (NIL_*), otherwise value
@@ -577,6 +580,43 @@ func identObj(info *types.Info, e ast.Expr) types.Object {
 			return o
 		}
 		return info.Defs[id]
+	}
+	return nil
+}
+
+// autoOpts: when no options are given, single-assignment locals initialised by a pure getter chain
+// (`right := e.Right()`) are expanded, function by function, so that introducing or removing such
+// an explanatory local does not change canonical keys.
+func (c *Ctx) autoOpts(info *types.Info, e ast.Expr) *canonOpts {
+	if e == nil || !e.Pos().IsValid() {
+		return nil
+	}
+	if c.autoCache == nil {
+		c.autoCache = map[*ast.FuncDecl]*canonOpts{}
+		c.autoBusy = map[*ast.FuncDecl]bool{}
+	}
+	c.indexDecls()
+	if c.declSpans == nil {
+		for _, fd := range c.declOf {
+			if fd.Body != nil {
+				c.declSpans = append(c.declSpans, fd)
+			}
+		}
+	}
+	for _, fd := range c.declSpans {
+		if fd.Pos() <= e.Pos() && e.Pos() < fd.End() {
+			if o, ok := c.autoCache[fd]; ok {
+				return o
+			}
+			if c.autoBusy[fd] {
+				return nil
+			}
+			c.autoBusy[fd] = true
+			o := c.localExpansions(info, fd.Body)
+			c.autoBusy[fd] = false
+			c.autoCache[fd] = o
+			return o
+		}
 	}
 	return nil
 }
